@@ -144,7 +144,7 @@ class TokenStream:
             self._head_token = None
         else:
             self._revert_reading_of_newline()
-            s_source = self._source[self._start_pos:self._source_io.tell()].strip()
+            s_source = self._source[self._start_pos:self._source_io.tell()].strip(self._lexer.whitespace)
             t = (TokenType.QUOTED
                  if any(q in s_source for q in self._lexer.quotes)
                  else TokenType.PLAIN)
